@@ -189,8 +189,8 @@ impl CssStyle {
     /// optional whitespace / comment between two tokens
     fn gap(&mut self, out: &mut String, default_space: bool) {
         if self.comments && self.chance(1, 4) {
-            let k = self.below(7);
-            out.push_str(["/* c */", "/**/", "/***/", "/* x **/", "/** doc */", "/*****/", "/* a*b / c */"][k]);
+            let k = self.below(COMMENTS.len());
+            out.push_str(COMMENTS[k]);
         }
         if self.minify {
             return;
@@ -335,6 +335,35 @@ fn fmt_decl(d: &Decl, st: &mut CssStyle) -> String {
     s
 }
 
+/// Comment forms: runs of stars, and bodies holding characters that mean something
+/// outside a comment (statement and block delimiters, quotes, an at-sign).
+const COMMENTS: [&str; 14] = [
+    "/* c */",
+    "/**/",
+    "/***/",
+    "/* x **/",
+    "/** doc */",
+    "/*****/",
+    "/* a*b / c */",
+    "/* fallback; x */",
+    "/* } */",
+    "/* a { b } c */",
+    "/* it's */",
+    "/* say \"q */",
+    "/* @media */",
+    "/* ;;} \" ' */",
+];
+
+/// Unknown properties as value tokens (a gap - possibly a comment - may sit between any two).
+const UNKNOWN_PROP_TOKENS: [(&str, &[&str]); 6] = [
+    ("font-family", &["Georgia,", "serif"]),
+    ("margin", &["0", "auto"]),
+    ("border", &["1px", "solid", "#ccc"]),
+    ("font", &["italic", "bold", "12px/30px", "Georgia,", "serif"]),
+    ("transition", &["all", ".2s", "ease-in-out"]),
+    ("padding", &["1em", "2em"]),
+];
+
 const UNKNOWN_PROPS: [(&str, &str); 8] = [
     ("margin", "0 auto"),
     ("font-family", "\"Helvetica Neue\", sans-serif"),
@@ -377,6 +406,10 @@ const JUNK_RULES: [&str; 11] = [
 impl Sheet {
     pub fn to_css(&self, st: &mut CssStyle) -> String {
         let mut out = String::new();
+        if st.comments && st.chance(1, 4) {
+            let k = st.below(COMMENTS.len());
+            out.push_str(COMMENTS[k]);
+        }
         for rule in &self.0 {
             if st.junk_rulesets && st.chance(1, 3) {
                 let i = st.below(JUNK_RULESETS.len());
@@ -407,6 +440,26 @@ impl Sheet {
             st.gap(&mut out, true);
             let n = rule.decls.len();
             for (i, d) in rule.decls.iter().enumerate() {
+                if st.unknown_props && st.chance(1, 4) {
+                    // an unknown property whose value tokens are separated by gaps
+                    let k = st.below(UNKNOWN_PROP_TOKENS.len());
+                    let (n, toks) = UNKNOWN_PROP_TOKENS[k];
+                    out.push_str(n);
+                    out.push(':');
+                    for (ti, t) in toks.iter().enumerate() {
+                        if ti > 0 || !st.minify {
+                            // tokens need a separator: a space, or a comment when minified
+                            let before = out.len();
+                            st.gap(&mut out, true);
+                            if out.len() == before {
+                                out.push(' ');
+                            }
+                        }
+                        out.push_str(t);
+                    }
+                    out.push(';');
+                    st.gap(&mut out, true);
+                }
                 if st.unknown_props && st.chance(1, 3) {
                     let k = st.below(UNKNOWN_PROPS.len());
                     let (n, v) = UNKNOWN_PROPS[k];
@@ -437,9 +490,24 @@ impl Sheet {
                 out.push('\n');
             }
         }
+        if st.junk_rulesets && st.chance(1, 4) {
+            let i = st.below(JUNK_RULESETS.len());
+            out.push_str(JUNK_RULESETS[i]);
+        }
         if st.junk_rules && st.chance(1, 3) {
             let i = st.below(JUNK_RULES.len());
             out.push_str(JUNK_RULES[i]);
+        }
+        // the sheet may end in a comment (after a rule, an at-rule or a skipped rule set)
+        if st.comments && st.chance(1, 2) {
+            if !st.minify && st.chance(1, 2) {
+                out.push(' ');
+            }
+            let k = st.below(COMMENTS.len());
+            out.push_str(COMMENTS[k]);
+            if st.chance(1, 3) {
+                out.push('\n');
+            }
         }
         out
     }
